@@ -50,6 +50,11 @@ def programs(tier):
     P.append(("zero-operands", 'int z = 3 - 3;\nint k = 4;\nEntity a1 = place("small-lamp", z + k, z - 9);\nEntity a2 = place("small-lamp", k * z + 2, k - k - 7);\n'
               'Entity a3 = place("small-lamp", z, 0 - k);\nfor i in 0..2 {\n  Entity l = place("inserter", i * k, i - 12);\n}\n',
               [("small-lamp", 4, -9, ()), ("small-lamp", 2, -7, ()), ("small-lamp", 0, -4, ()), ("inserter", 0, -12, ()), ("inserter", 4, -11, ())]))
+    # arguments that mention caller names equal to the callee's parameter names
+    P.append(("func-arg-names", 'func lamp_at(int x, int y) {\n    Entity l = place("small-lamp", x, y);\n    return 0;\n}\n'
+              'func mirror_pair(int x, int y) {\n    Signal k1 = lamp_at(y, x);\n    Signal k2 = lamp_at(x + 1, y + x);\n    return 0;\n}\n'
+              'int x = 20;\nint y = -9;\nSignal z1 = lamp_at(y, x);\nSignal z2 = mirror_pair(3, -4);\nSignal z3 = lamp_at(x + 2, y);\n',
+              [("small-lamp", -9, 20, ()), ("small-lamp", -4, 3, ()), ("small-lamp", 4, -1, ()), ("small-lamp", 22, -9, ())]))
     for n in (2, 9, 120):
         P.append((f"loop-{n}", f'Signal a = ("signal-A", 3);\nfor i in 0..{n} {{\n    Entity l = place("small-lamp", i, -6);\n    l.enable = a > i;\n}}\n',
                   [("small-lamp", i, -6, ()) for i in range(n)]))
